@@ -348,41 +348,95 @@ def r5(ctx):
               "force_close when the keep-alive queue is full")
 
 
+def reaper_table(ctx):
+    """evaluated: one pass of murder_keepalived over a concrete keep-alive queue (oldest first) at time NOW: exactly
+    the connections whose deadline has passed are released (slot, poller, socket), the others stay queued in order"""
+    from ..absint import SpecObj
+    from .c11 import CLOCKS
+    repo = ctx.repo
+    f = repo.func(TW + ".murder_keepalived")
+    g = f.cfg
+    NOW = 1000.0
+
+    def atom_of(e):
+        if isinstance(e, ast.Call) and repo.call_target(f.module, f, e) in CLOCKS:
+            return "NOW"
+        return None
+    cases = {
+        "oldest expired, newest fresh": (NOW - 1, NOW + 100),
+        "none expired": (NOW + 5, NOW + 50),
+        "two expired, one fresh": (NOW - 20, NOW - 1, NOW + 30),
+        "exactly at the deadline, then fresh": (NOW, NOW + 30),
+        "all expired": (NOW - 3, NOW - 2),
+        "empty queue": (),
+    }
+    rows = []
+    for cname, deadlines in cases.items():
+        closed = []
+        conns = tuple(SpecObj(timeout=d, sock="sock%d" % i, name="c%d" % i, close=(lambda i=i: closed.append(i))) for i, d in enumerate(deadlines))
+        ex = Explorer(f, atom_of=atom_of, tracked=["self._keep", "self.nr_conns"])
+        outs = ex.run(g.entry, {"NOW": NOW, "self._keep": conns, "self.nr_conns": 10})
+        want_closed = [i for i, d in enumerate(deadlines) if d - NOW <= 0]
+        # the scan stops at the first live connection: only a prefix can be released
+        k = 0
+        while k < len(deadlines) and deadlines[k] - NOW <= 0:
+            k += 1
+        want_closed = list(range(k))
+        want_keep = tuple("c%d" % i for i in range(k, len(deadlines)))
+        got = set()
+        for o in outs:
+            kp = o.env.get("self._keep")
+            got.add((o.kind, tuple(getattr(c, "name", "?") for c in kp) if isinstance(kp, tuple) else "U", o.env.get("self.nr_conns")))
+        want = ("return", want_keep, 10 - k)
+        okk = got == {want} and sorted(set(closed)) == want_closed
+        rows.append({"queue (deadline-now)": [d - NOW for d in deadlines], "outcome": sorted(map(str, got)), "closed": sorted(set(closed)), "required": str(want) + " closed=%s" % want_closed})
+        ctx.check("C13.R6", okk, key(f, "reaper|" + cname), site(f, text="keep-alive queue: " + cname),
+                  "one reaper pass over deadlines-now=%s leaves (queue, nr_conns) = %s and closes %s; required %s and closes %s: idle connections are closed before their keep-alive time "
+                  "has passed, or expired ones are kept" % ([d - NOW for d in deadlines], sorted(map(str, got)), sorted(set(closed)), want, want_closed), "expired prefix released, rest kept in order")
+    ctx.table("C13.R6 reaper pass", rows)
+
+
 def r6(ctx):
     repo = ctx.repo
     f = ctx.fn(repo.func(TW + ".murder_keepalived"))
     g = f.cfg
+    reaper_table(ctx)
     dec = [s for s in g.stmts(ast.AugAssign) if tail(s.ast.target) == "nr_conns"]
     back = [nn for c in method_calls(f, ("appendleft", "append")) if tail(c.func.value) == "_keep" for nn in nodes_with(f, c)]
     pops = [c for c in method_calls(f, ("popleft", "pop")) if tail(c.func.value) == "_keep"]
-    ctx.need(dec and back and pops, "C13.R6: murder_keepalived lacks pop / re-queue / release")
-    ctx.check("C13.R6", all(c.func.attr == "popleft" for c in pops) and all(nn.text.find("appendleft") >= 0 for nn in back), key(f, "oldest-end"), site(f),
-              "the keep-alive queue is not scanned from (and restored at) its oldest end", "popleft / appendleft")
+    # the shape "pop the oldest, re-queue it when it is still alive" gets its own step table; any other shape (peek at
+    # the oldest, then remove it) is decided by the reaper table above alone
     ff = repo.func(TW + ".finish_request")
     ctx.check("C13.R6", all(c.func.attr == "append" for c in method_calls(ff, ("append", "appendleft")) if tail(c.func.value) == "_keep"), key(ff, "newest-at-right"), site(ff),
               "finish_request does not queue re-armed connections at the newest end", "_keep.append (newest at the right)")
-    # the remaining life `<conn>.timeout - <now>` wherever it is computed (named temporary or inside the comparison)
-    deltas = [e for e in walk_own(f.node) if isinstance(e, ast.BinOp) and isinstance(e.op, ast.Sub) and "timeout" in norm(e)]
-    ctx.need(deltas, "C13.R6: deadline - now not computed")
-    v = deltas[0]
-    ctx.check("C13.R6", tail(v.left) == "timeout" and isinstance(v.right, ast.Name), key(f, "delta"), site(f, v), "the remaining life is not `conn.timeout - now`", "conn.timeout - now")
-    start = nodes_with(f, v)
+    if dec and back and pops:
+        ctx.check("C13.R6", all(c.func.attr == "popleft" for c in pops) and all(nn.text.find("appendleft") >= 0 for nn in back), key(f, "oldest-end"), site(f),
+                  "the keep-alive queue is not scanned from (and restored at) its oldest end", "popleft / appendleft")
+        ff = repo.func(TW + ".finish_request")
+        ctx.check("C13.R6", all(c.func.attr == "append" for c in method_calls(ff, ("append", "appendleft")) if tail(c.func.value) == "_keep"), key(ff, "newest-at-right"), site(ff),
+                  "finish_request does not queue re-armed connections at the newest end", "_keep.append (newest at the right)")
+        # the remaining life `<conn>.timeout - <now>` wherever it is computed (named temporary or inside the comparison)
+        deltas = [e for e in walk_own(f.node) if isinstance(e, ast.BinOp) and isinstance(e.op, ast.Sub) and "timeout" in norm(e)]
+        ctx.need(deltas, "C13.R6: deadline - now not computed")
+        v = deltas[0]
+        ctx.check("C13.R6", tail(v.left) == "timeout" and isinstance(v.right, ast.Name), key(f, "delta"), site(f, v), "the remaining life is not `conn.timeout - now`", "conn.timeout - now")
+        start = nodes_with(f, v)
 
-    def atom_of(e):
-        if e is v:
-            return "DELTA"
-        return None
-    rows = []
-    for d in (-5, -0.001, 0, 0.001, 30):
-        ex = Explorer(f, atom_of=atom_of)
-        outs = ex.run(start[0], {"DELTA": d}, stop=lambda n: n.kind == "join" and isinstance(n.stmt, ast.While), watch=dict([(n.id, "release") for n in dec] + [(n.id, "requeue") for n in back]))
-        got = set()
-        for o in outs:
-            got.add(("release" if "release" in o.events else "") + ("requeue" if "requeue" in o.events else "") + ("+continue" if o.kind == "stop" else "+stop-scan"))
-        want = "release+continue" if d <= 0 else "requeue+stop-scan"
-        rows.append({"deadline_minus_now": d, "outcome": sorted(got), "required": want})
-        ctx.check("C13.R6", got == {want}, key(f, "expiry|%s" % d), site(f, text="deadline - now = %s" % d), "keep-alive connection with deadline-now=%s: %s, required %s" % (d, sorted(got), want), want)
-    ctx.table("C13.R6 expiry", rows)
+        def atom_of(e):
+            if e is v:
+                return "DELTA"
+            return None
+        rows = []
+        for d in (-5, -0.001, 0, 0.001, 30):
+            ex = Explorer(f, atom_of=atom_of)
+            outs = ex.run(start[0], {"DELTA": d}, stop=lambda n: n.kind == "join" and isinstance(n.stmt, ast.While), watch=dict([(n.id, "release") for n in dec] + [(n.id, "requeue") for n in back]))
+            got = set()
+            for o in outs:
+                got.add(("release" if "release" in o.events else "") + ("requeue" if "requeue" in o.events else "") + ("+continue" if o.kind == "stop" else "+stop-scan"))
+            want = "release+continue" if d <= 0 else "requeue+stop-scan"
+            rows.append({"deadline_minus_now": d, "outcome": sorted(got), "required": want})
+            ctx.check("C13.R6", got == {want}, key(f, "expiry|%s" % d), site(f, text="deadline - now = %s" % d), "keep-alive connection with deadline-now=%s: %s, required %s" % (d, sorted(got), want), want)
+        ctx.table("C13.R6 expiry", rows)
     # now is read once per scan, from the deadline's clock (C11.R1 checks equality of clocks)
     nows = [s for s in g.stmts(ast.Assign) if isinstance(s.ast.value, ast.Call) and (repo.call_target(f.module, f, s.ast.value) or "").startswith("time.")]
     ctx.check("C13.R6", bool(nows), key(f, "reads-clock"), site(f), "the reaper does not read the clock", "now = time.time()")
